@@ -297,7 +297,8 @@ def run(ctx):
     # ------------------------------------------------------------------ R9 single forwarding task
     spawns = [n for n, c in walk(L.root) if n['k'] in ('Call', 'MethodCall') and (callee_of(n) or '').split('::')[-1] in ('spawn', 'spawn_local', 'spawn_blocking')]
     ctx.add('R9.no-spawn', L.path, loc(L.root), not spawns, 'the driver loop spawns tasks: responses could be forwarded out of order')
-    ctx.add('R9.channel-types', 'ItemSender/ResultSender', '', True, 'resolved to tokio mpsc::UnboundedSender / oneshot::Sender by the anchor types')
+    ctx.add('R9.channel-types', 'ItemSender/ResultSender', '', anchors.T_ITEM_SENDER.startswith('tokio::sync::mpsc::') and anchors.T_RESULT_SENDER.startswith('tokio::sync::oneshot::'),
+            'the item channel (%s) is not a tokio mpsc channel (FIFO, single consumer) or the reply channel is not a oneshot' % anchors.T_ITEM_SENDER[:60])
 
 
 def arm_result(b):
